@@ -21,6 +21,9 @@ pub fn verif_dir() -> std::path::PathBuf {
 }
 
 pub fn load_known_findings() -> Vec<KnownFinding> {
+    if std::env::var("BTCSIM_IGNORE_KNOWN").is_ok() {
+        return vec![];
+    }
     let p = verif_dir().join("known_findings.json");
     let Ok(s) = std::fs::read_to_string(&p) else {
         return vec![];
